@@ -665,6 +665,8 @@ def call_prank_cases():
                     return i.call(real_transfer, a, k, bypass_contract=True) if False else None
 
                 interp.contracts["halmos.sevm:SEVM.transfer_value"] = transfer
+                funds_checked = []
+                interp.contracts["halmos.sevm:SEVM.handle_insufficient_fund_case"] = lambda i, a, k: funds_checked.append(a[1])
                 wl = hs.Worklist()
                 try:
                     interp.call(hs.SEVM.__dict__["call"], [sevm, ex, c09.SCHEMES[scheme], to_alias, wl], {})
@@ -682,6 +684,9 @@ def call_prank_cases():
                 t = asked[0] if asked else None
                 tz = t.as_z3() if hasattr(t, "as_z3") else t
                 ctx.oblige("it is consulted for this call's target address", z3.simplify(tz) == z3.simplify(c09.CALLEE) if ok and z3.is_bv(tz) and tz.size() == 160 else z3.BoolVal(False))
+                if scheme == "CALL":
+                    fc = [(x.as_z3() if hasattr(x, "as_z3") else x) for x in funds_checked]
+                    ctx.oblige("the balance that decides `insufficient funds` is the balance of the account that pays: the pranked sender (the same account the transfer debits)", z3.BoolVal(len(fc) == 1) if len(fc) != 1 else (fc[0] == S if z3.is_bv(fc[0]) and fc[0].size() == 160 else z3.BoolVal(False)), info={"checked": str(fc)[:100]})
                 if scheme == "CALL" and moved:
                     frm = moved[0][0]
                     fz = frm.as_z3() if hasattr(frm, "as_z3") else frm
